@@ -43,11 +43,25 @@ def gen_case(rng, tier, *, semi=False, metrics=None, force_tie_free=False, allow
     if semi:
         nU = int(rng.choice([0, 1, 2, n // 2, n, 2 * n]))
     X = gen.make_dataset(rng, n + nU, d, gc)
+    boat = (not force_tie_free) and rng.random() < 0.02
+    if boat:
+        try:
+            BX, BY = gen.boat()
+            sel = rng.permutation(len(BX))[: n + nU]
+            if len(sel) == n + nU and len(set(BY[sel[:n]].tolist())) >= 2:
+                X, d, gc = BX[sel].copy(), BX.shape[1], "boat"
+            else:
+                boat = False
+        except OSError:
+            boat = False
     pattern = gen.LABEL_PATTERNS[int(rng.integers(0, len(gen.LABEL_PATTERNS)))] if rng.random() < 0.6 else "blob"
     kind = T[metric][1]
     X = gen.to_domain(X, kind)
     Xl, U = X[:n], X[n:]
     Y = gen.make_labels(rng, Xl, pattern)
+    if boat:
+        Y = np.unique(BY[sel[:n]], return_inverse=True)[1]
+        pattern = "boat"
     m = int(nq if nq is not None else rng.integers(1, 13))
     Q = gen.to_domain(gen.make_queries(rng, X, m), kind)
     # plant exact copies of training rows among the queries (after the domain map, so they stay exact copies)
@@ -57,7 +71,7 @@ def gen_case(rng, tier, *, semi=False, metrics=None, force_tie_free=False, allow
     case = {"model": "semi" if semi else "supervised", "metric": metric, "gclass": gc, "pattern": pattern,
             "X": Xl.tolist(), "Y": Y.tolist(), "U": U.tolist(), "Q": Q.tolist(), "pre": None}
     if allow_pre and rng.random() < 0.25:
-        mk = gen.pick(rng, ["M1", "M2", "M3", "M4"]) if not force_tie_free else gen.pick(rng, ["M1", "M2"])
+        mk = gen.pick(rng, ["M1", "M2", "M3", "M4", "ONES"]) if not force_tie_free else gen.pick(rng, ["M1", "M2"])
         extra = int(rng.integers(1, 8))
         N = n + nU + extra
         D = gen.make_matrix(rng, N, mk)
